@@ -182,6 +182,10 @@ func (e *Env) eval(ex ast.Expr) *Value {
 	case *ast.SliceExpr:
 		b := e.eval(n.X)
 		if b.K == KLeaf && isAbstractBytes(b.T) {
+			if n.Low == nil && n.High == nil {
+				// x[:] of a byte string / byte array is the same content (as a []byte)
+				return leaf(types.NewSlice(types.Typ[types.Uint8]), b.Term)
+			}
 			lo, hi := "0", fmt.Sprintf("(blen %s)", b.Term)
 			if n.Low != nil {
 				lo = e.eval(n.Low).Term
